@@ -769,7 +769,8 @@ def _run_diag(case, ctx):
         ctx.flag("diag:shape_larger_than_vector")
     p = Probe(ctx, case)
     eforms = [("array", lambda: np.array(el, dtype=float)), ("list", lambda: list(el)),
-              ("column", lambda: np.array(el, dtype=float).reshape(-1, 1))]
+              ("column", lambda: np.array(el, dtype=float).reshape(-1, 1)),
+              ("row", lambda: np.array(el, dtype=float).reshape(1, -1))]   # 1 x N: flattened like the N x 1 column
     # element STORAGE: the (integer-valued) elements held as platform / narrow integers, single precision, booleans
     eforms += [("int64", lambda: np.array(el, dtype=np.int64)), ("int8", lambda: np.array(el, dtype=np.int8)),
                ("float32", lambda: np.array(el, dtype=np.float32))]
